@@ -189,8 +189,14 @@ Definition ostep1 (l : nat) (t : otrk) (o : dop) (r : res) (evs : list ev) : otr
               fail08 t (res_eqb r (ROk (Error (panic_msg pk))) && cstate_eqb (k_st k) (Error (panic_msg pk)))
           | Some _ => fail08 t false          (* the body stopped without yielding or ending *)
           | None =>
-              (* the body did not run: only a refused resume may cause that *)
-              fail08 (fail07 t (res_eqb r RErr && negb (k_events k))) (negb (res_eqb r RUnwound))
+              (* the body did not run: only a refused resume may cause that, and a resume is refused
+                 only while the coroutine is not yet due or is parked in a syscall wait *)
+              let refusable := match k_st k0 with
+                               | Suspend _ ts => o_clock before <? ts
+                               | Syscall _ _ (SSuspend _) => true
+                               | _ => false
+                               end in
+              fail08 (fail07 t (res_eqb r RErr && negb (k_events k) && refusable)) (negb (res_eqb r RUnwound))
           end
   | ExtRunning i | ExtSyscall i _ _ _ =>
       let k := get_k t i in
